@@ -319,6 +319,15 @@ def mux(n):
 
 def contracts(tier):
     q = tier == "quick"
+    # caller side (w1_usb2_glue): the complete EndpointInterface record, every field, in the multiplexer (bare interfaces, all
+    # other lines arbitrary) and end-to-end inside the real USBDevice with a control, a bulk IN and a bulk OUT endpoint
+    from .w1_usb2_glue import mux_wiring, device_wiring, ALL_GROUPS
+    yield ("USBEndpointMultiplexer", "wiring_3_interfaces_all_fields", mux_wiring(3, ALL_GROUPS))
+    yield ("USBDevice", "wiring_utmi_all_fields", device_wiring("utmi", ALL_GROUPS + ("utmi_tx",)))
+    if not q:
+        yield ("USBEndpointMultiplexer", "wiring_1_interface_all_fields", mux_wiring(1, ALL_GROUPS))
+        yield ("USBEndpointMultiplexer", "wiring_2_interfaces_all_fields", mux_wiring(2, ALL_GROUPS))
+        yield ("USBDevice", "wiring_ulpi_all_fields", device_wiring("ulpi", ALL_GROUPS + ("utmi_tx",)))
     yield ("USBStreamInEndpoint", "max4_ep2", stream_in(4, 2))
     yield ("USBSignalInEndpoint", "w16_ep3_little", signal_in(16, 3, "little"))
     yield ("USBIsochronousStreamInEndpoint", "max4_ep1", iso_in(USBIsochronousStreamInEndpoint, 4, 1))
